@@ -91,6 +91,7 @@ EXTENDS Naturals, Sequences, FiniteSets, TLC, Json
 CONSTANTS MaxLink,   \* connection generations
           MaxAnn,    \* explicit announcements by b
           MaxApi,    \* Manager.Disconnect calls
+          ApiOf,     \* agents on which Manager.Disconnect / DisconnectAll is called
           MaxRelay,  \* streams opened through a
           KaOf,      \* agents whose keepalive thread may declare a connection dead
           MaxKa,     \* keepalive iterations that get as far as the check / write while the schedule goes on
@@ -117,11 +118,13 @@ VARIABLES nl,       \* links dialed so far
           rt,       \* 0 or the generation through which a learned b's route
           rl,       \* 0 or the generation over which a relays a stream to b
           await,    \* [Agent -> SUBSET Links]  unregistered by Disconnect / DisconnectAll, disconnect callback not yet run
+          early,    \* [Agent -> SUBSET Links]  ... callback already run by a later registerConnection; the
+                    \*                          connection's own late teardown is then a no-op
           nann, napi, nrel, nka,
           last
 
-vars == <<nl, dialer, hs, alive, reg, st, rd, ka, advq, rt, rl, await, nann, napi, nrel, nka, last>>
-view == <<nl, dialer, hs, alive, reg, st, rd, ka, advq, rt, rl, await, nann, napi, nrel, nka>>
+vars == <<nl, dialer, hs, alive, reg, st, rd, ka, advq, rt, rl, await, early, nann, napi, nrel, nka, last>>
+view == <<nl, dialer, hs, alive, reg, st, rd, ka, advq, rt, rl, await, early, nann, napi, nrel, nka>>
 
 Init ==
   /\ nl = 0
@@ -135,6 +138,7 @@ Init ==
   /\ advq = [l \in Links |-> 0]
   /\ rt = 0 /\ rl = 0
   /\ await = [x \in Agent |-> {}]
+  /\ early = [x \in Agent |-> {}]
   /\ nann = 0 /\ napi = 0 /\ nrel = 0 /\ nka = 0
   /\ last = [act |-> "Init"]
 
@@ -148,7 +152,7 @@ HsKill(h, l) == [h EXCEPT ![l] = IF @ \in {"hello", "ack"} THEN "failed" ELSE @]
 Stale(x, l) == reg[x] \ {l} # {}
 RegAfterTeardown(x, l) ==
   IF "DevTeardownDeregistersByIdentity" \in Dev THEN [reg EXCEPT ![x] = {}] ELSE [reg EXCEPT ![x] = @ \ {l}]
-Cleans(x, l) == x = "a" /\ (~Stale(x, l) \/ "DevCleanupByIdentityOnStaleCallback" \in Dev)
+Cleans(x, l) == x = "a" /\ l \notin early[x] /\ (~Stale(x, l) \/ "DevCleanupByIdentityOnStaleCallback" \in Dev)
 
 (* ---- registerConnection ---------------------------------------------------*)
 \* the decision of registerConnection for connection l at y; keep = the slot is (believed to be) free;
@@ -158,9 +162,10 @@ Decide(y, l, keep, h) ==
     \* connections of this identity still awaiting their teardown: their callback runs now, before l is inserted
     /\ IF await[y] # {} /\ "DevSkipCleanupWhenSuperseded" \notin Dev
          THEN /\ await' = [await EXCEPT ![y] = {}]
+              /\ early' = [early EXCEPT ![y] = @ \cup await[y]]
               /\ rt' = IF y = "a" THEN 0 ELSE rt
               /\ rl' = IF y = "a" THEN 0 ELSE rl
-         ELSE UNCHANGED <<await, rt, rl>>
+         ELSE UNCHANGED <<await, early, rt, rl>>
     /\ reg' = IF "DevRegisterReplaces" \in Dev THEN [reg EXCEPT ![y] = @ \cup {l}] ELSE [reg EXCEPT ![y] = {l}]
     /\ st' = [st EXCEPT ![y][l] = "up"]
     /\ rd' = [rd EXCEPT ![y][l] = "run"]
@@ -172,14 +177,14 @@ Decide(y, l, keep, h) ==
     /\ st' = [st EXCEPT ![y][l] = "rej"]
     /\ rd' = [rd EXCEPT ![y][l] = "run"]
     /\ hs' = h
-    /\ UNCHANGED <<reg, ka, advq, alive, await, rt, rl>>
+    /\ UNCHANGED <<reg, ka, advq, alive, await, early, rt, rl>>
   ELSE
     /\ st' = [st EXCEPT ![y][l] = "rej"]          \* conn.Close(): no threads, the link dies
     /\ alive' = [alive EXCEPT ![l] = FALSE]
     /\ rd' = RdKill(rd, l)
     /\ ka' = KaKill(ka, l)
     /\ hs' = HsKill(h, l)
-    /\ UNCHANGED <<reg, advq, await, rt, rl>>
+    /\ UNCHANGED <<reg, advq, await, early, rt, rl>>
 
 SlotFree(y) == reg[y] = {} \/ "DevRegisterReplaces" \in Dev
 
@@ -188,7 +193,7 @@ Register(y, l, newHs) ==
   IF SplitRegister THEN
     /\ st' = [st EXCEPT ![y][l] = IF SlotFree(y) THEN "free" ELSE "dup"]      \* RegCheck
     /\ hs' = [hs EXCEPT ![l] = newHs]
-    /\ UNCHANGED <<reg, rd, ka, advq, alive, await, rt, rl>>
+    /\ UNCHANGED <<reg, rd, ka, advq, alive, await, early, rt, rl>>
   ELSE
     Decide(y, l, SlotFree(y), [hs EXCEPT ![l] = newHs])
 
@@ -211,7 +216,7 @@ Dial(x) ==
      /\ hs' = [hs EXCEPT ![l] = "hello"]
      /\ alive' = [alive EXCEPT ![l] = TRUE]
      /\ last' = [act |-> "Dial", x |-> x, l |-> l]
-  /\ UNCHANGED <<reg, st, rd, ka, advq, rt, rl, await, nann, napi, nrel, nka>>
+  /\ UNCHANGED <<reg, st, rd, ka, advq, rt, rl, await, early, nann, napi, nrel, nka>>
 
 AcceptHello(l) ==
   /\ hs[l] = "hello"
@@ -232,6 +237,7 @@ TeardownVars(x, l) ==
   /\ rt' = IF Cleans(x, l) THEN 0 ELSE rt
   /\ rl' = IF Cleans(x, l) THEN 0 ELSE rl
   /\ await' = [await EXCEPT ![x] = @ \ {l}]
+  /\ early' = [early EXCEPT ![x] = @ \ {l}]
 
 KaBegin(x, l) ==
   /\ x \in KaOf
@@ -240,14 +246,14 @@ KaBegin(x, l) ==
   /\ ka' = [ka EXCEPT ![x][l] = "busy"]
   /\ nka' = nka + 1
   /\ last' = [act |-> "KaBegin", x |-> x, l |-> l]
-  /\ UNCHANGED <<nl, dialer, hs, alive, reg, st, rd, advq, rt, rl, await, nann, napi, nrel>>
+  /\ UNCHANGED <<nl, dialer, hs, alive, reg, st, rd, advq, rt, rl, await, early, nann, napi, nrel>>
 
 KaOk(x, l) ==
   /\ ka[x][l] = "busy"
   /\ alive[l]                                   \* a write on a closed link can only fail (KaFail)
   /\ ka' = [ka EXCEPT ![x][l] = "run"]
   /\ last' = [act |-> "KaOk", x |-> x, l |-> l]
-  /\ UNCHANGED <<nl, dialer, hs, alive, reg, st, rd, advq, rt, rl, await, nann, napi, nrel, nka>>
+  /\ UNCHANGED <<nl, dialer, hs, alive, reg, st, rd, advq, rt, rl, await, early, nann, napi, nrel, nka>>
 
 KaFail(x, l) ==
   /\ ka[x][l] = "busy"
@@ -259,7 +265,7 @@ KaFail(x, l) ==
        /\ ka' = [y \in Agent |-> [k \in Links |-> IF y = x /\ k = l THEN "done"
                                                   ELSE IF k \in reg[x] /\ ka[y][k] = "run" THEN "done" ELSE ka[y][k]]]
        /\ hs' = [k \in Links |-> IF k \in reg[x] /\ hs[k] \in {"hello", "ack"} THEN "failed" ELSE hs[k]]
-       /\ UNCHANGED <<rt, rl, await>>
+       /\ UNCHANGED <<rt, rl, await, early>>
      ELSE
        /\ alive' = [alive EXCEPT ![l] = FALSE]
        /\ rd' = RdKill(rd, l)
@@ -277,6 +283,7 @@ ReadTeardown(x, l) ==
   /\ UNCHANGED <<nl, dialer, hs, alive, st, ka, advq, nann, napi, nrel, nka>>
 
 ApiDisconnect(x) ==
+  /\ x \in ApiOf
   /\ napi < MaxApi
   /\ \E l \in reg[x] :
        /\ reg' = [reg EXCEPT ![x] = @ \ {l}]
@@ -287,7 +294,7 @@ ApiDisconnect(x) ==
        /\ hs' = HsKill(hs, l)
        /\ last' = [act |-> "ApiDisconnect", x |-> x, l |-> l]
   /\ napi' = napi + 1
-  /\ UNCHANGED <<nl, dialer, st, advq, rt, rl, nann, nrel, nka>>
+  /\ UNCHANGED <<nl, dialer, st, advq, rt, rl, early, nann, nrel, nka>>
 
 Announce ==
   /\ nann < MaxAnn
@@ -297,7 +304,7 @@ Announce ==
        /\ advq' = [advq EXCEPT ![l] = @ + 1]
        /\ last' = [act |-> "Announce", l |-> l]
   /\ nann' = nann + 1
-  /\ UNCHANGED <<nl, dialer, hs, alive, reg, st, rd, ka, rt, rl, await, napi, nrel, nka>>
+  /\ UNCHANGED <<nl, dialer, hs, alive, reg, st, rd, ka, rt, rl, await, early, napi, nrel, nka>>
 
 Learn(l) ==
   /\ advq[l] > 0
@@ -305,14 +312,14 @@ Learn(l) ==
   /\ advq' = [advq EXCEPT ![l] = @ - 1]
   /\ rt' = l
   /\ last' = [act |-> "Learn", l |-> l, registered |-> (l \in reg["a"])]
-  /\ UNCHANGED <<nl, dialer, hs, alive, reg, st, rd, ka, rl, await, nann, napi, nrel, nka>>
+  /\ UNCHANGED <<nl, dialer, hs, alive, reg, st, rd, ka, rl, await, early, nann, napi, nrel, nka>>
 
 DropDead(l) ==
   /\ advq[l] > 0
   /\ ~alive[l]
   /\ advq' = [advq EXCEPT ![l] = 0]
   /\ last' = [act |-> "DropDead", l |-> l, n |-> advq[l]]
-  /\ UNCHANGED <<nl, dialer, hs, alive, reg, st, rd, ka, rt, rl, await, nann, napi, nrel, nka>>
+  /\ UNCHANGED <<nl, dialer, hs, alive, reg, st, rd, ka, rt, rl, await, early, nann, napi, nrel, nka>>
 
 RelayOpen ==
   /\ nrel < MaxRelay
@@ -323,7 +330,7 @@ RelayOpen ==
        /\ rl' = l
        /\ last' = [act |-> "RelayOpen", l |-> l]
   /\ nrel' = nrel + 1
-  /\ UNCHANGED <<nl, dialer, hs, alive, reg, st, rd, ka, advq, rt, await, nann, napi, nka>>
+  /\ UNCHANGED <<nl, dialer, hs, alive, reg, st, rd, ka, advq, rt, await, early, nann, napi, nka>>
 
 Next ==
   \/ \E x \in Agent : Dial(x) \/ ApiDisconnect(x)
@@ -359,13 +366,13 @@ NoDeadGenerationItems ==
 \* what a holds for b was created over a connection a kept
 ItemsFromKept == (rt # 0 => st["a"][rt] = "up") /\ (rl # 0 => st["a"][rl] = "up")
 
-State(n, d, h, al, rg, s, r, k, aq, t, rr, aw, na, np, nr, nk) ==
+State(n, d, h, al, rg, s, r, k, aq, t, rr, aw, ea, na, np, nr, nk) ==
   [nl |-> n, dialer |-> d, hs |-> h, alive |-> al, reg |-> rg, st |-> s, rd |-> r, ka |-> k, advq |-> aq,
-   rt |-> t, rl |-> rr, await |-> aw, nann |-> na, napi |-> np, nrel |-> nr, nka |-> nk]
+   rt |-> t, rl |-> rr, await |-> aw, early |-> ea, nann |-> na, napi |-> np, nrel |-> nr, nka |-> nk]
 
 EmitEdge ==
   Emit => PrintT("EDGE " \o ToJson([
-     s |-> State(nl, dialer, hs, alive, reg, st, rd, ka, advq, rt, rl, await, nann, napi, nrel, nka),
+     s |-> State(nl, dialer, hs, alive, reg, st, rd, ka, advq, rt, rl, await, early, nann, napi, nrel, nka),
      a |-> last',
-     t |-> State(nl', dialer', hs', alive', reg', st', rd', ka', advq', rt', rl', await', nann', napi', nrel', nka')]))
+     t |-> State(nl', dialer', hs', alive', reg', st', rd', ka', advq', rt', rl', await', early', nann', napi', nrel', nka')]))
 =============================================================================
